@@ -1,0 +1,67 @@
+//go:build verif
+
+// Specification functions for the contracts checked by /verif (govc), written
+// from RFC 6386 (sections 9.6, 15.2-15.4) and the reference decoder's
+// PrecomputeFilterStrengths; compiled only under the verif build tag.
+
+package lossy
+
+// specFilterLevel: the loop-filter level of a macroblock class. Per segment
+// the base level is the segment's value (absolute) or the frame level plus the
+// segment delta; with mode/reference deltas enabled the intra-frame delta and,
+// for 4x4-predicted macroblocks, the B_PRED mode delta are added; the result
+// is clamped to 0..63.
+func specFilterLevel(useSegment, absolute bool, segStrength int8, frameLevel int, useDelta bool, refDelta0, modeDelta0 int, is4x4 bool) int {
+	level := frameLevel
+	if useSegment {
+		level = int(segStrength)
+		if !absolute {
+			level += frameLevel
+		}
+	}
+	if useDelta {
+		level += refDelta0
+		if is4x4 {
+			level += modeDelta0
+		}
+	}
+	if level < 0 {
+		return 0
+	}
+	if level > 63 {
+		return 63
+	}
+	return level
+}
+
+// specInteriorLimit: RFC 6386 section 15.2: the interior limit is the level,
+// shifted right by 1 (sharpness 1..4) or 2 (sharpness 5..7), capped at
+// 9 - sharpness, and at least 1.
+func specInteriorLimit(level, sharpness int) int {
+	il := level
+	if sharpness > 0 {
+		if sharpness > 4 {
+			il >>= 2
+		} else {
+			il >>= 1
+		}
+		if il > 9-sharpness {
+			il = 9 - sharpness
+		}
+	}
+	if il < 1 {
+		il = 1
+	}
+	return il
+}
+
+// specHevThreshold: key frames: 2 from level 40, 1 from level 15, else 0.
+func specHevThreshold(level int) uint8 {
+	if level >= 40 {
+		return 2
+	}
+	if level >= 15 {
+		return 1
+	}
+	return 0
+}
